@@ -1,12 +1,333 @@
-//! C13 — not built yet.
-use crate::runner::{Outcome, Summary};
-use crate::Ctx;
-use serde_json::Value;
+//! C13 — substitution, evaluation and memory-reference listing agree.
+//!
+//! replay: TLC cases {tree, refs, vars} of spec/mc/MC_ExprEval.tla.  The real `memory_references()` must
+//!         list exactly the addresses occurring in the tree (bag; order vs. the model is divergence only);
+//!         for *every* partial assignment of the tree's variables and regions, `evaluate` must succeed iff
+//!         everything is supplied, and `substitute_variables(numbers)` followed by `evaluate` must agree
+//!         with `evaluate` under the same bindings (success pattern and value).
+//! drive:  seeded random trees up to depth 6 with random partial assignments; events
+//!         reset/refs/subst/eval/done go to spec/trace/ExprEvalTrace.tla.
 
-pub fn replay(_ctx: &Ctx, _case: &Value) -> Outcome {
-    panic!("C13: replay not implemented")
+use super::c03::{self, Alphabet};
+use crate::runner::{Outcome, Summary, Violation};
+use crate::util;
+use crate::Ctx;
+use num_complex::Complex64;
+use quil_rs::expression::{interned, EvaluationError, Expression};
+use rand::Rng;
+use serde_json::{json, Value};
+use std::collections::{BTreeMap, BTreeSet, HashMap};
+
+type Refs = Vec<(String, u64)>;
+
+fn refs_json(r: &Refs) -> Value {
+    Value::Array(r.iter().map(|(n, i)| json!({"name": n, "index": i})).collect())
 }
 
-pub fn drive(_ctx: &Ctx) -> Summary {
-    panic!("C13: drive not implemented")
+fn bag(r: &Refs) -> BTreeMap<(String, u64), usize> {
+    let mut b = BTreeMap::new();
+    for x in r {
+        *b.entry(x.clone()).or_insert(0) += 1;
+    }
+    b
+}
+
+fn real_refs(e: &Expression) -> Refs {
+    let mut it = e.memory_references();
+    let mut out = vec![];
+    for m in it.by_ref() {
+        out.push((m.name.clone(), m.index));
+    }
+    // FusedIterator: exhausted stays exhausted
+    assert!(it.next().is_none(), "memory_references yields again after None");
+    out
+}
+
+fn number(c: Complex64) -> Expression {
+    (*interned::number(c)).clone()
+}
+
+fn same_value(a: Complex64, b: Complex64) -> bool {
+    let same = |x: f64, y: f64| x == y || (x.is_nan() && y.is_nan());
+    (same(a.re, b.re) && same(a.im, b.im)) || c03::close(a, b, a.norm())
+}
+
+fn res_json(r: &Result<Complex64, EvaluationError>) -> Value {
+    match r {
+        Ok(c) => c03::cplx_json(Some(*c)),
+        Err(e) => json!(format!("{e:?}")),
+    }
+}
+
+fn sigma_value(j: usize) -> Complex64 {
+    Complex64::new(1.25 + 0.5 * j as f64, -0.75 + 0.25 * j as f64)
+}
+fn rho_value(j: usize) -> Complex64 {
+    Complex64::new(-0.625 + 0.375 * j as f64, 1.5 - 0.5 * j as f64)
+}
+
+struct Assignment {
+    sdom: Vec<String>,
+    vdom: Vec<String>,
+    shape: BTreeMap<String, usize>,
+}
+
+/// one partial assignment: the three laws of the statement
+fn check_assignment(
+    e: &Expression,
+    names: &[String],
+    a: &Assignment,
+    supplied: bool,
+    o: &mut Outcome,
+) -> (bool, bool) {
+    let idx = |v: &String| names.iter().position(|n| n == v).unwrap_or(0);
+    let sigma: HashMap<String, Expression> =
+        a.sdom.iter().map(|v| (v.clone(), number(sigma_value(idx(v))))).collect();
+    let rho: HashMap<String, Complex64> = a.vdom.iter().map(|v| (v.clone(), rho_value(idx(v)))).collect();
+    let mut both = rho.clone();
+    for v in &a.sdom {
+        both.insert(v.clone(), sigma_value(idx(v)));
+    }
+    let mem: HashMap<String, Vec<f64>> =
+        a.shape.iter().map(|(r, n)| (r.clone(), (0..*n).map(|k| 0.75 + 0.5 * k as f64).collect())).collect();
+    let direct = e.evaluate(&both, &mem);
+    let via = e.substitute_variables(&sigma).evaluate(&rho, &mem);
+    o.sub_evaluations += 1;
+    let describe = || {
+        json!({"substituted": a.sdom, "bound": a.vdom, "memory_lengths": a.shape}).to_string()
+    };
+    if direct.is_ok() != supplied || matches!(&direct, Err(x) if *x != EvaluationError::Incomplete) {
+        o.violate(
+            Violation::new(
+                "evaluate succeeds iff every variable and memory cell is supplied",
+                json!(if supplied { "Ok" } else { "Err(Incomplete)" }),
+                res_json(&direct),
+            )
+            .note(describe()),
+        );
+    }
+    let agree = match (&direct, &via) {
+        (Ok(x), Ok(y)) => same_value(*x, *y),
+        (Err(x), Err(y)) => x == y,
+        _ => false,
+    };
+    if !agree {
+        o.violate(
+            Violation::new("evaluate(substitute_variables(e, numbers)) vs evaluate(e, bindings)", res_json(&direct), res_json(&via))
+                .note(describe()),
+        );
+    }
+    (direct.is_ok(), via.is_ok())
+}
+
+/// substitution by expressions composes with evaluation (ExprEval!SubstCompose; not part of the statement)
+fn check_compose(e: &Expression, a: &Assignment, names: &[String], o: &mut Outcome) {
+    let idx = |v: &String| names.iter().position(|n| n == v).unwrap_or(0);
+    let images: Vec<Expression> = vec![
+        (*interned::add(interned::variable("y".to_string()), interned::number(Complex64::new(1.0, 0.0)))).clone(),
+        (*interned::address(quil_rs::instruction::MemoryReference::new("m".to_string(), 1))).clone(),
+        (*interned::neg(interned::variable("x".to_string()))).clone(),
+    ];
+    let sigma: HashMap<String, Expression> =
+        a.sdom.iter().map(|v| (v.clone(), images[idx(v) % images.len()].clone())).collect();
+    let rho: HashMap<String, Complex64> = a.vdom.iter().map(|v| (v.clone(), rho_value(idx(v)))).collect();
+    let mem: HashMap<String, Vec<f64>> =
+        a.shape.iter().map(|(r, n)| (r.clone(), (0..*n).map(|k| 0.75 + 0.5 * k as f64).collect())).collect();
+    let lhs = e.substitute_variables(&sigma).evaluate(&rho, &mem);
+    let mut used = BTreeSet::new();
+    c03::variables(e, &mut used);
+    let mut env = rho.clone();
+    let mut missing = false;
+    for v in used.iter().filter(|v| a.sdom.contains(v)) {
+        match sigma[v].evaluate(&rho, &mem) {
+            Ok(c) => {
+                env.insert(v.clone(), c);
+            }
+            Err(_) => missing = true,
+        }
+    }
+    let ok = if missing {
+        lhs.is_err()
+    } else {
+        match (&lhs, &e.evaluate(&env, &mem)) {
+            (Ok(x), Ok(y)) => same_value(*x, *y),
+            (Err(x), Err(y)) => x == y,
+            _ => false,
+        }
+    };
+    if !ok {
+        o.diverge(format!(
+            "substitution by expressions does not compose with evaluation for {} (substituted {:?}, bound {:?})",
+            c03::to_abs(e), a.sdom, a.vdom
+        ));
+    }
+}
+
+fn subsets(names: &[String]) -> Vec<Vec<String>> {
+    (0..(1usize << names.len()))
+        .map(|mask| names.iter().enumerate().filter(|(k, _)| mask >> k & 1 == 1).map(|(_, n)| n.clone()).collect())
+        .collect()
+}
+
+fn is_supplied(vars: &BTreeSet<String>, addrs: &Refs, vdom: &[String], shape: &BTreeMap<String, usize>) -> bool {
+    vars.iter().all(|v| vdom.contains(v))
+        && addrs.iter().all(|(n, i)| shape.get(n).map(|len| (*i as usize) < *len).unwrap_or(false))
+}
+
+pub fn replay(_ctx: &Ctx, case: &Value) -> Outcome {
+    let tree = if let Some(h) = case.get("history") { h[0]["tree"].clone() } else { case["tree"].clone() };
+    let e = c03::build(&tree);
+    let gf_form = tree.to_string().contains("\"n\":") || !tree.to_string().contains("\"re\":");
+    let back = c03::to_abs_opts(&e, gf_form);
+    if back != tree {
+        panic!("abstraction mismatch: {back} vs {tree}");
+    }
+    // independent of the code under test: a plain recursive walk
+    let mut occurring: Refs = vec![];
+    c03::addresses(&e, &mut occurring);
+    let mut vars = BTreeSet::new();
+    c03::variables(&e, &mut vars);
+    let mut o = Outcome::ok(!vars.is_empty() || !occurring.is_empty());
+
+    // (1) memory_references
+    let listed = real_refs(&e);
+    if bag(&listed) != bag(&occurring) {
+        o.violate(Violation::new("memory_references (as a bag)", refs_json(&occurring), refs_json(&listed)));
+    } else if listed != occurring {
+        o.diverge(format!("memory_references order {} is not left to right {}", refs_json(&listed), refs_json(&occurring)));
+    }
+    if let Some(model) = case.get("refs") {
+        if *model != refs_json(&listed) {
+            o.diverge(format!("memory_references {} differ from the model's {}", refs_json(&listed), model));
+        }
+    }
+    if let Some(model) = case.get("vars").and_then(|v| v.as_array()) {
+        let mv: BTreeSet<String> = model.iter().map(|x| x.as_str().unwrap_or("").to_string()).collect();
+        if mv != vars {
+            o.diverge(format!("variables {vars:?} differ from the model's {mv:?}"));
+        }
+    }
+
+    // (2) + (3): every partial assignment of the tree's variables (at least x) and regions (at least m)
+    let mut names: Vec<String> = vars.iter().cloned().collect();
+    if names.is_empty() {
+        names.push("x".into());
+    }
+    let mut regions: BTreeMap<String, u64> = BTreeMap::new();
+    for (n, i) in &occurring {
+        let m = regions.entry(n.clone()).or_insert(0);
+        *m = (*m).max(*i);
+    }
+    if regions.is_empty() {
+        regions.insert("m".into(), 0);
+    }
+    // region -> absent (None) or a length 0..=max_index+1
+    let mut shapes: Vec<BTreeMap<String, usize>> = vec![BTreeMap::new()];
+    for (r, max_index) in &regions {
+        let mut next = vec![];
+        for s in &shapes {
+            next.push(s.clone());
+            for len in 0..=(*max_index as usize + 1) {
+                let mut t = s.clone();
+                t.insert(r.clone(), len);
+                next.push(t);
+            }
+        }
+        shapes = next;
+    }
+    let doms = subsets(&names);
+    'all: for sdom in &doms {
+        for vdom in &doms {
+            for shape in &shapes {
+                let a = Assignment { sdom: sdom.clone(), vdom: vdom.clone(), shape: shape.clone() };
+                let mut bound: Vec<String> = sdom.clone();
+                bound.extend(vdom.iter().cloned());
+                let supplied = is_supplied(&vars, &occurring, &bound, shape);
+                check_assignment(&e, &names, &a, supplied, &mut o);
+                check_compose(&e, &a, &names, &mut o);
+                if !o.violations.is_empty() || o.divergences.len() > 3 {
+                    break 'all;
+                }
+            }
+        }
+    }
+    o
+}
+
+// ------------------------------------------------------------------------------------------- drive
+
+pub fn drive(ctx: &Ctx) -> Summary {
+    let n = ctx.arg_u64("n", 100);
+    let max_depth = ctx.arg_u64("depth", 6) as usize;
+    let path = ctx.arg_str("out").expect("--out");
+    let mut out = std::io::BufWriter::new(std::fs::File::create(path).expect("create trace"));
+    let mut rng = util::rng(ctx.seed, 1313);
+    let alphabet = Alphabet {
+        literals: c03::LITERALS,
+        vars: &["x", "y", "theta"],
+        addrs: &[("m", 0), ("m", 1), ("n", 1), ("ro", 2), ("ro", 0)],
+        ops: c03::OPS,
+        fns: c03::FUNCTIONS,
+        pi: true,
+        pos: true,
+    };
+    let universe: Vec<String> = ["x", "y", "theta"].iter().map(|s| s.to_string()).collect();
+    let mut sum = Summary::default();
+    let mut seen = std::collections::HashSet::new();
+    for _ in 0..n {
+        let d = 1 + rng.gen_range(0..max_depth);
+        let tree = c03::random_tree(&mut rng, &alphabet, d);
+        let e = c03::build(&tree);
+        let mut occurring: Refs = vec![];
+        c03::addresses(&e, &mut occurring);
+        let mut vars = BTreeSet::new();
+        c03::variables(&e, &mut vars);
+        let mut o = Outcome::ok(!vars.is_empty() || !occurring.is_empty());
+        util::emit(&mut out, &json!({"ev": "reset", "tree": tree}));
+        let listed = real_refs(&e);
+        if bag(&listed) != bag(&occurring) {
+            o.violate(Violation::new("memory_references (as a bag)", refs_json(&occurring), refs_json(&listed)));
+        }
+        util::emit(&mut out, &json!({"ev": "refs", "refs": refs_json(&listed)}));
+        // one recorded substitution (numbers from the literal table of the specification)
+        let sdom: Vec<String> = universe.iter().filter(|_| rng.gen_bool(0.5)).cloned().collect();
+        let lits = [(2.0, 0.0), (0.5, 0.0), (0.0, 2.0)];
+        let sigma: HashMap<String, Expression> = sdom
+            .iter()
+            .map(|v| {
+                let (re, im) = lits[universe.iter().position(|u| u == v).unwrap()];
+                (v.clone(), number(Complex64::new(re, im)))
+            })
+            .collect();
+        let substituted = e.substitute_variables(&sigma);
+        let mut sig_list: Vec<Value> = sigma.iter().map(|(v, x)| json!({"v": v, "e": c03::to_abs(x)})).collect();
+        sig_list.sort_by_key(|x| x["v"].as_str().unwrap().to_string());
+        util::emit(&mut out, &json!({"ev": "subst", "sigma": sig_list, "out": c03::to_abs(&substituted)}));
+        // a few random partial assignments
+        let mut events = 3;
+        for _ in 0..4 {
+            let sd: Vec<String> = universe.iter().filter(|_| rng.gen_bool(0.45)).cloned().collect();
+            let vd: Vec<String> = universe.iter().filter(|_| rng.gen_bool(0.6)).cloned().collect();
+            let mut shape = BTreeMap::new();
+            for r in ["m", "n", "ro"] {
+                if rng.gen_bool(0.8) {
+                    shape.insert(r.to_string(), rng.gen_range(0..=3usize));
+                }
+            }
+            let a = Assignment { sdom: sd.clone(), vdom: vd.clone(), shape: shape.clone() };
+            let mut bound = sd.clone();
+            bound.extend(vd.iter().cloned());
+            let supplied = is_supplied(&vars, &occurring, &bound, &shape);
+            let (ok_direct, ok_subst) = check_assignment(&e, &universe, &a, supplied, &mut o);
+            let mem: Vec<Value> = shape.iter().map(|(r, l)| json!({"name": r, "len": l})).collect();
+            util::emit(&mut out, &json!({"ev": "eval", "sdom": sd, "vdom": vd, "mem": mem,
+                                         "ok_direct": ok_direct, "ok_subst": ok_subst}));
+            events += 1;
+        }
+        util::emit(&mut out, &json!({"ev": "done", "evals": events - 3}));
+        o.count_n("events", events + 1);
+        let distinct = seen.insert(tree.to_string());
+        sum.absorb(&json!({"tree": tree}), &o, distinct);
+    }
+    sum
 }
